@@ -324,6 +324,18 @@ func (m *c02SeqMon) Step(w *sessmc.World, e *sessmc.Event, obs []sessmc.Obs) (st
 		}
 		m.owed = keep
 	}
+	// a save-and-increment that fails (a write error of the store) does not consume its number; one that succeeds
+	// consumes exactly one
+	for _, o := range obs {
+		if o.K == "st" && o.Op == "SaveIncrS" {
+			if o.Txt != "" && o.S1 != o.S0 {
+				return "C02/R6-failed-send-consumed-a-number", fmt.Sprintf("storing number %d failed (%s) but the next outbound number moved from %d to %d: the next accepted message skips a number", o.Arg, o.Txt, o.S0, o.S1)
+			}
+			if o.Txt == "" && o.S1 != o.S0+1 {
+				return "C02/R6-send-did-not-advance-by-one", fmt.Sprintf("storing number %d moved the next outbound number from %d to %d", o.Arg, o.S0, o.S1)
+			}
+		}
+	}
 	defer func() { m.prevLoggedOn = w.VS.Snapshot().LoggedOn }()
 	lastReset := -1
 	for i, o := range obs {
@@ -369,6 +381,10 @@ func init() {
 			sessmc.EvIn("D", 2, false), sessmc.EvIn("2", 0, false, fixscan.Field{Tag: 7, Value: "1"}, fixscan.Field{Tag: 16, Value: "0"}), sessmc.EvSend(), sessmc.EvFlush(),
 			sessmc.EvTimeout(quickfix.VerifNeedHeartbeat), sessmc.EvTimeout(quickfix.VerifPeerTimeout), sessmc.EvStop(), sessmc.EvIn("5", 0, false),
 			sessmc.EvWindowCloses(), sessmc.EvRestart()}
+		if cfg.FileDir != "" {
+			// a send during which one of the file store's writes (index line, body, counter) fails
+			alpha = append(alpha, sessmc.EvSendFailingWrite(1), sessmc.EvSendFailingWrite(2), sessmc.EvSendFailingWrite(3))
+		}
 		return searchSpec{cfg: cfg, alphabet: alpha, mons: func() []sessmc.Monitor { return []sessmc.Monitor{&c02SeqMon{}} }, variant: "C02/seq"}
 	}
 }
